@@ -64,6 +64,8 @@ Lemma info_visit_ident i x : info (visit_ident i x) = info x.
 Proof. unfold visit_ident. destruct (live_now x); reflexivity. Qed.
 Lemma info_visit_e e x : info (visit_e e x) = info x.
 Proof. destruct e; cbn [visit_e]; rewrite ?info_visit_lit, ?info_visit_ident; reflexivity. Qed.
+Lemma info_visit_oe o x : info (visit_oe o x) = info x.
+Proof. destruct o; cbn [visit_oe]; [apply info_visit_e | reflexivity]. Qed.
 Lemma info_visit_cond c x : info (visit_cond c x) = info x.
 Proof. destruct c; cbn [visit_cond]; rewrite ?info_visit_lit, ?info_visit_e; reflexivity. Qed.
 Lemma info_visit_break l x : info (visit_break fx l x) = info x.
@@ -762,10 +764,12 @@ Proof.
   - intros p b IHb c Hn. cbn [keys] in Hn. destruct (NoDup_cons_inv _ _ Hn) as [Hp Hnb].
     wrap_case (SDoWhile p b c) (visit_do_while fx p c (pos b) (an fx b)) (visit_do_whileG fx p c (pos b) (anG fx b))
       (sim_do_while p c (pos b) _ _ _ (IHb Hnb) (pos_in_keys b) Hp).
-  - intros p c b IHb Hn. cbn [keys] in Hn. destruct (NoDup_cons_inv _ _ Hn) as [Hp Hnb].
+  - intros p i c u b IHb Hn. cbn [keys] in Hn. destruct (NoDup_cons_inv _ _ Hn) as [Hp Hnb].
     assert (Hne : pos b <> p) by (intros Eq; apply Hp; rewrite <- Eq; apply pos_in_keys).
-    wrap_case (SFor p c b) (visit_for fx p c (pos b) (an fx b)) (visit_forG fx p c (pos b) (anG fx b))
-      (sim_for p c (pos b) _ _ _ (IHb Hnb) (pos_in_keys b) Hp Hne).
+    wrap_case (SFor p i c u b) (fun x => visit_for fx p c (pos b) (an fx b) (visit_oe u (visit_oe i x)))
+      (fun x => visit_forG fx p c (pos b) (anG fx b) (visit_oe u (visit_oe i x)))
+      (sim_pre _ _ _ _ (fun x => visit_oe u (visit_oe i x)) (sim_for p c (pos b) _ _ _ (IHb Hnb) (pos_in_keys b) Hp Hne)
+         (fun x => eq_trans (info_visit_oe u _) (info_visit_oe i x))).
   - intros p b IHb Hn. cbn [keys] in Hn. destruct (NoDup_cons_inv _ _ Hn) as [Hp Hnb].
     wrap_case (SForIn p b) (visit_for_in fx (pos b) (an fx b)) (visit_for_inG fx (pos b) (anG fx b))
       (sim_for_in p (pos b) _ _ _ (IHb Hnb) (pos_in_keys b) Hp).
@@ -1101,7 +1105,9 @@ Proof.
     apply ulog_if_else; apply ulog_orb; assumption.
   - intros p c b IHb. apply (ulog_wrap (SWhile p c b) (visit_whileG fx c (pos b) (anG fx b))). apply ulog_while. exact IHb.
   - intros p b IHb c. apply (ulog_wrap (SDoWhile p b c) (visit_do_whileG fx p c (pos b) (anG fx b))). apply ulog_do_while. exact IHb.
-  - intros p c b IHb. apply (ulog_wrap (SFor p c b) (visit_forG fx p c (pos b) (anG fx b))). apply ulog_for. exact IHb.
+  - intros p i c u b IHb. apply (ulog_wrap (SFor p i c u b) (fun x => visit_forG fx p c (pos b) (anG fx b) (visit_oe u (visit_oe i x)))).
+    intros x k Hu. destruct (ulog_for p c (pos b) _ IHb _ k Hu) as [H | H]; [left | right; exact H].
+    rewrite (U_info x _ k (eq_trans (info_visit_oe u _) (info_visit_oe i x))) in H. exact H.
   - intros p b IHb. apply (ulog_wrap (SForIn p b) (visit_for_inG fx (pos b) (anG fx b))). apply ulog_for_in. exact IHb.
   - intros p b IHb. apply (ulog_wrap (SForOf p b) (visit_for_inG fx (pos b) (anG fx b))). apply ulog_for_in. exact IHb.
   - intros p g fp pb hb IHh b IHb.
